@@ -121,6 +121,9 @@ let verdict case impl =
           | Some k when List.mem k callk -> "diff statement-text " ^ str_of_name t
           | _ -> "viol statement-text " ^ str_of_name t))
   | ("E" :: _), ("error" :: rest) -> "error " ^ String.concat " " rest
+  (* the scenario did not run (no session: out of loopback ports). Nothing was observed, so nothing is
+     claimed; checks/c20.py counts these lines and fails the check when there are too many. *)
+  | ("E" :: _), ("skip-env" :: rest) -> "ok not-run " ^ String.concat " " rest
   | _ -> "error unknown-case"
 
 let () = run_lines verdict
